@@ -24,6 +24,7 @@ RULES = [
     Rule('C18.R4', 'a failing bank load stores nothing into synth/setup state before returning', 8),
     Rule('C18.R5', 'every failing path of the four loaders leaves a non-empty error text', 4),
     Rule('C18.R6', 'a callback slot and its user-data slot are re-wired from a matching pair', 12),
+    Rule('C18.R7', 'accepted setting values lie in the documented range; the AUTO volume model resolves to the bank default wherever the live model is set from the setup', 3),
 ]
 EXPLANATION = ('Static CFG + store/mutation-summary analysis of the exported functions of opnmidi.cpp and the player functions they reach: '
                'stores are resolved to fields through reference/pointer locals; a call counts as a store when the callee transitively '
@@ -486,6 +487,7 @@ def analyse(facts, tier):
             obls.append(Obl('C18.R5', name, 'return -1', fst['loc'], 'discharged' if ok else 'finding',
                             why='non-empty error text is stored (literal, or fallback when the loader left none)' if ok else 'failing return without a non-empty error text'))
     obls += r6_pairs(facts)
+    obls += r7_ranges(facts)
     return obls
 
 
@@ -527,4 +529,56 @@ def r6_pairs(facts):
                                'the user-data slot of one callback is wired to the user data registered for another: after this reset the callback fires with a foreign pointer'))
     if len(out) < 12:
         raise build.AnalysisBroken('C18.R6: only %d callback user-data re-wirings found' % len(out))
+    return out
+
+
+
+def r7_ranges(facts):
+    """(a) interval engine on opn2_setNumChips: the value stored into the setup lies in [1, OPN_MAX_CHIPS] for every int argument (a lost
+    lower bound lets 0 through: the synth is rebuilt with no chips).  (b) every function that derives the live volume model from
+    m_setup.VolumeModel stores the bank default under `== OPNMIDI_VolumeModel_AUTO` (sibling agreement of the setter with applySetup):
+    handing AUTO to setVolumeScaleModel() does nothing, so the getter would keep reporting the explicit model."""
+    from ..e2 import Engine2, St
+    out = []
+    fn = facts.fn('opn2_setNumChips')
+    eng = Engine2(facts, {}, {}, {})
+    vals = []
+    def hook(eng, e, st):
+        for x in walk(e):
+            ap = assign_parts(x)
+            if ap and strip(ap[0]).get('k') == 'MemberExpr' and short(strip(ap[0])['n']) == 'numChips' and 'Setup' in strip(ap[0])['n']:
+                vals.append((x.get('ln'), eng.ev(ap[1], st)))
+    eng.value_hooks.append(hook)
+    eng.run(fn, record=True)
+    if not vals:
+        raise build.AnalysisBroken('C18.R7: the store of Setup::numChips in opn2_setNumChips was not reached')
+    maxc = None
+    for (nm, loc), g in facts.globals.items():
+        pass
+    for ln, v in vals:
+        ok = v is not None and v.lo >= 1 and v.hi <= 100
+        out.append(Obl('C18.R7', fn.name, 'stored chip count', '%s:%s' % (fn.file, ln), 'discharged' if ok else 'finding',
+                       why='value %s within [1, 100]' % v if ok else 'the accepted chip count %s leaves the documented range 1..100: the setter succeeds and the synthesizer is rebuilt with that count' % v))
+    n = 0
+    for f2 in facts.all_fns():
+        if f2.tree is None or not (f2.name.startswith('opn2_') or f2.name.startswith('OPNMIDIplay::')):
+            continue
+        reads_setup = any(mentions(st['s'], lambda y: y.get('k') == 'MemberExpr' and short(y['n']) == 'VolumeModel' and 'Setup' in y['n']) for b, j, st in f2.cfg.stmts(conds=True))
+        sets_live = [(b, j, st, x) for b, j, st in f2.cfg.stmts() for x in calls_in(st['s']) if short(callee_name(x)) == 'setVolumeScaleModel']
+        if not (reads_setup and sets_live):
+            continue
+        n += 1
+        okk = False
+        for b, j, st in f2.cfg.stmts():
+            for x in walk(st['s']):
+                ap = assign_parts(x)
+                if ap and strip(ap[0]).get('k') == 'MemberExpr' and short(strip(ap[0])['n']) == 'm_volumeScale' and mentions(ap[1], member_named('volumeModel')):
+                    gf = guard_facts(f2, b, st)
+                    if any(f[0] == 'cmp' and f[1] == '==' and mentions(f[2], member_named('VolumeModel')) and const_of(f[3]) == 0 for f in gf):
+                        okk = True
+        out.append(Obl('C18.R7', f2.name, 'AUTO resolves to the bank\'s volume model', f2.loc, 'discharged' if okk else 'finding',
+                       why='m_volumeScale = m_insBankSetup.volumeModel under VolumeModel == AUTO' if okk else
+                       'the live volume model is set from the setup without resolving AUTO to the bank default: after setting AUTO the previous explicit model stays in force (setVolumeScaleModel ignores AUTO)'))
+    if n < 2:
+        raise build.AnalysisBroken('C18.R7: functions deriving the live volume model from the setup not found (%d)' % n)
     return out
